@@ -43,6 +43,12 @@ def edit (enc : Enc) (own : Bytes) (ops : List MutOp) : Bytes :=
         else own)
     ++ encodeDyn enc (afters ops)
 
+/-- The content operations of a script, per token kind. -/
+def startMutOps (ops : List StartTagOp) : List MutOp := ops.filterMap fun | .mut o => some o | _ => none
+def endMutOps (ops : List EndTagOp) : List MutOp := ops.filterMap fun | .mut o => some o | _ => none
+def commentMutOps (ops : List CommentOp) : List MutOp := ops.filterMap fun | .mut o => some o | _ => none
+def textMutOps (ops : List TextOp) : List MutOp := ops.filterMap fun | .mut o => some o | _ => none
+
 /-- Content operations in a script for a token of the given kind (`Doctype::remove` counts as
 `remove`; operations for another kind of token cannot be expressed and are ignored). -/
 def contentOps : Token → List TokenOp → List MutOp
